@@ -15,7 +15,8 @@ kinds
   cxy, cyx (.., 2) cutout-relative pairs: unchanged by a shift, reversed on transposition
   mat      (.., n, n) image moments indexed [y-power, x-power]: transposed on transposition
   sym2     (.., 2, 2) tensors in (x, y) order: both axes reversed on transposition
-  ang_deg  orientation in degrees mod 180: theta -> 90 - theta on transposition (ang_rad: radians)
+  ang_deg  orientation in degrees mod 180: theta -> 90 - theta on transposition (ang_rad: radians); rows flagged
+           ``ambig`` (isotropic second moments / a == b: orientation undefined) accept any finite angle
   img      one 2-D cutout per row: unchanged by a shift, transposed on transposition
   bbox / slices / aper / cutoutimg : objects, expanded into sub-columns of the kinds above
 """
@@ -258,19 +259,19 @@ PROFILES = {
     'calc_radius_at_ee': ('inv', None, 'geom', P),
     'normalized.profile': ('inv', None, 'geom', P),
 }
-CENTROIDS = {       # transposition only
-    'centroid_com': ('xy', None, 'pos', 'all'),
-    'centroid_quadratic': ('xy', None, 'pos', 'all'),
-    'centroid_quadratic(peak,box)': ('xy', None, 'pos', 'all'),
-    'centroid_1dg': ('xy', None, 'fit', 'all'),
-    'centroid_2dg': ('xy', None, 'fitl', 'all'),
-    'centroid_sources(com).x': ('x', 'centroid_sources(com).y', 'pos', 'all'),
-    'centroid_sources(com).y': ('y', 'centroid_sources(com).x', 'pos', 'all'),
-    'centroid_sources(quadratic).x': ('x', 'centroid_sources(quadratic).y', 'pos', 'all'),
-    'centroid_sources(quadratic).y': ('y', 'centroid_sources(quadratic).x', 'pos', 'all'),
-    'centroid_sources(2dg).x': ('x', 'centroid_sources(2dg).y', 'fitl', 'all'),
-    'centroid_sources(2dg).y': ('y', 'centroid_sources(2dg).x', 'fitl', 'all'),
+CENTROIDS = {
+    # centroid functions called on cutouts made by the harness: cutout-relative (x, y) pairs
+    'centroid_com': ('cxy', None, 'pos', 'all'),
+    'centroid_quadratic': ('cxy', None, 'pos', 'all'),
+    'centroid_quadratic(peak,box)': ('cxy', None, 'pos', 'all'),
+    'centroid_1dg': ('cxy', None, 'fit', 'all'),
+    'centroid_2dg': ('cxy', None, 'fitl', 'all'),
 }
+# centroid_sources: image coordinates
+for _tag, _tol in (('com', 'pos'), ('quadratic', 'pos'), ('2dg', 'fitl'), ('1dg,error', 'fit'), ('2dg,error', 'fitl'),
+                   ('com,footprint', 'pos'), ('quadratic,xypeak', 'pos')):
+    CENTROIDS[f'centroid_sources({_tag}).x'] = ('x', f'centroid_sources({_tag}).y', _tol, 'all')
+    CENTROIDS[f'centroid_sources({_tag}).y'] = ('y', f'centroid_sources({_tag}).x', _tol, 'all')
 
 SEGM = {       # attributes of the SegmentationImage returned by detect_sources / deblend_sources
     'labels': ('id', None, 'exact', 'all'),
@@ -340,6 +341,7 @@ class Res:
         """Expand a list of apertures (or None) into numeric sub-columns."""
         seq = list(seq) if isinstance(seq, (list, tuple, np.ndarray)) else [seq]
         cls, pos, theta = [], [], []
+        round_ = np.zeros(len(seq), bool)
         shape = {}
         tens = {}
         for i, a in enumerate(seq):
@@ -365,6 +367,8 @@ class Res:
                 theta.append(np.nan)
                 continue
             theta.append(thv)
+            if hasattr(a, 'a') and hasattr(a, 'b') and abs(float(a.a) - float(a.b)) <= 1e-9 * abs(float(a.a)):
+                round_[i] = True        # an ellipse with a == b is a circle: its theta has no meaning (rule 1)
             for p in a._params:
                 if p in ('positions', 'theta'):
                     continue
@@ -379,7 +383,7 @@ class Res:
         th = np.array(theta, float)
         # rectangles built with theta = 0 by SourceCatalog (local background) are transposed by swapping
         # width and height instead of rotating: handled in the engine via 'rect0'
-        self.put(name + '.theta', 'ang_rad', None, tol, foot, th, period=math.pi)
+        self.put(name + '.theta', 'ang_rad', None, tol, foot, th, period=math.pi, ambig=round_)
 
 
 # ----------------------------------------------------------------------------
@@ -524,7 +528,18 @@ def compare(acc, case, base, new, T, viol, stats):
             if scale is not None and T.kind == 'T' and kind == 'mat':
                 scale = np.swapaxes(scale, -1, -2)
         exp = expected(kind, vb, pv, T)
+        amb = extra.get('ambig')
+        if amb is not None and kind in ('ang_deg', 'ang_rad'):
+            # rows whose second moments are isotropic (single pixel, a == b): the orientation is undefined, any
+            # finite value is accepted (soundness rule 1)
+            amb = np.asarray(_rows(np.asarray(amb, bool), rb), bool)
+            vn = np.where(amb & np.isfinite(np.asarray(vn, float)), exp, vn)
+            stats['orientation_values_ambiguous'] += int(amb.sum())
         tol = cb['tol']
+        if T.kind == 'shift':
+            # a shift hands the routine bit-identical cutouts: results that are only ftol-accurate under
+            # transposition (2-D Gaussian fits) can be held to a tighter class under translation
+            tol = extra.get('tol_shift', tol)
         d = num_diff(vn, exp, tol, period=extra.get('period'), scale=scale)
         stats['values_compared'] += int(np.size(vb))
         if kind in ('x', 'y', 'xy', 'yx'):
